@@ -214,9 +214,12 @@ static void handle_line(int nf, char **f) {
     } else if (!strcmp(f[0], "parentname") && nf >= 2) {
         /* the rest of the script runs in a child whose PARENT is renamed (prctl PR_SET_NAME, "%d" = the parent's own pid): ancestors with odd names */
         fflush(NULL);
+        int sync[2]; if (pipe2(sync, O_CLOEXEC)) exit(3);
         pid_t c = fork();
+        if (c == 0) { char b; close(sync[1]); (void)!read(sync[0], &b, 1); close(sync[0]); }      /* continue only once the parent carries its new name */
         if (c > 0) {
             char nm[64]; snprintf(nm, sizeof nm, f[1], (int) getpid()); prctl(PR_SET_NAME, nm, 0, 0, 0);
+            close(sync[0]); (void)!write(sync[1], "x", 1); close(sync[1]);
             int st = 0; while (waitpid(c, &st, 0) < 0 && errno == EINTR) {}
             _exit(WIFEXITED(st) ? WEXITSTATUS(st) : 128 + WTERMSIG(st));
         }
